@@ -62,6 +62,25 @@ func (h *macKeyHistory) addKeys(ourKeyID uint32, theirKeyID uint32, receivingMAC
 	h.items = append(h.items, macKeys)
 }
 
+func (h *macKeyHistory) has(ourKeyID, theirKeyID uint32) bool {
+	for _, k := range h.items {
+		if k.ourKeyID == ourKeyID && k.theirKeyID == theirKeyID {
+			return true
+		}
+	}
+	return false
+}
+
+func (h *macKeyHistory) forgetKeysFor(ourKeyID, theirKeyID uint32) {
+	var del []int
+	for i, k := range h.items {
+		if k.ourKeyID == ourKeyID && k.theirKeyID == theirKeyID {
+			del = append(del, i)
+		}
+	}
+	h.deleteKeysAt(del...)
+}
+
 func (h *macKeyHistory) forgetMACKeysForOurKey(ourKeyID uint32) []macKey {
 	var ret []macKey
 	var del []int
